@@ -201,3 +201,129 @@ Theorem c01_sweep_after_subscribe : forall st f st0 idx cu st2 id rq st2' rq2 cs
        sweep_out st2 st2' o (dr_qos rq) (base_of (d_log d2)) nret
          (firstn (N.to_nat (sweep_slots st2 o rq - nret)) (skipn (N.to_nat (base_of (d_log d2))) (all ++ xs)))).
 Proof. exact sweep_after_subscribe. Qed.
+
+(** ---- the wake-up discipline (RInv 3) and completeness at quiescence --------------------------
+    Definitions (Router/Wake.v, WakePark.v, WakeThm.v, WakeCor.v):
+    [owed_run st0 [] ops] — ghost, a function of the op history: the links that took an
+    [Unschedule] out of their buffer ([OpDrain k] handing out a buffer that contains one) and have
+    not sent [Event::Ready] since ([OpReady id] clears the link of [id]); [owes_ready st0 ops k]
+    = membership of link [k] in it.
+    [WakeInv st owed] = [WakeS] — for every tracker: Ready -> queued; Paused Caughtup -> no
+    request held and no ack committed; Paused InflightFull -> inflight buffer not empty;
+    Paused Busy -> Unschedule in the link buffer or the link owes a Ready —
+    and [ParkInv] — every request parked on filter log [i] reads log [i] and (unless served
+    through a shared group) its cursor is the END of that log.
+    [quiescent st owed]: no live Ready connection in the ready queue, notifications empty, every
+    inflight buffer empty, no Unschedule in a link buffer, no link owing a Ready.
+    Hypotheses: valid configuration, 1 <= max_outgoing_packet_count < 2^62, well-typed ops
+    (SUBSCRIBE QoS <= 2), and — for the parked-cursor clause only — fewer than 2^62 entries per
+    filter log in the LAST state.  No hypothesis on the op sequence or the oracles. *)
+From Rumqtt Require Import Router.WindowFrame Router.WindowStep Router.Wake Router.WakePark Router.WakeThm Router.WakeCor Router.WakeExamples.
+From Rumqtt Require Import Router.Model Router.RunDefs.
+
+Theorem c01_no_lost_wakeup : forall (cfg : config) (st0 : rstate) (ops : list (list oracle * rop)) (st : rstate),
+  cfg_ok cfg -> init cfg = Ok st0 -> ops_wf ops -> run st0 ops = Ok st ->
+  forall (id : N) (t : tracker) (a : acklog) (o : outgoing),
+    slab_get (r_trackers st) id = Some t -> slab_get (r_acks st) id = Some a -> slab_get (r_obufs st) id = Some o ->
+    (tr_reqs t <> [] \/ a_committed a <> [] ->
+       (tr_status t = Ready /\ In id (r_ready st)) \/
+       (tr_status t = Paused InflightFull /\ o_inflight o <> []) \/
+       (tr_status t = Paused Busy /\
+        (In NUnschedule (out_of st (o_link o)) \/ owes_ready st0 ops (o_link o) = true))) /\
+    (tr_status t = Paused Caughtup -> tr_reqs t = [] /\ a_committed a = []) /\
+    (tr_status t = Ready -> In id (r_ready st)) /\
+    (tr_status t = Paused InflightFull -> o_inflight o <> []) /\
+    (tr_status t = Paused Busy ->
+       In NUnschedule (out_of st (o_link o)) \/ owes_ready st0 ops (o_link o) = true).
+Proof. exact no_lost_wakeup. Qed.
+
+Theorem c01_wake_inv_reachable : forall (cfg : config) (st0 : rstate) (ops : list (list oracle * rop)) (st : rstate),
+  cfg_ok cfg -> 1 <= cf_max_outgoing cfg < B62 -> init cfg = Ok st0 -> ops_wf ops ->
+  run st0 ops = Ok st -> Bounded st ->
+  WakeInv st (owed_run st0 [] ops).
+Proof. exact wake_reachable. Qed.
+
+Theorem c01_wake_inv_step : forall (st : rstate) (owed : list N) (orc : list oracle) (o : rop) (st' : rstate) (out : rout),
+  RInv st -> LinkInv st -> WakeS st owed -> step_with st orc o = Ok (st', out) ->
+  WakeS st' (owed_step st owed o).
+Proof. exact step_with_wakes. Qed.
+
+Theorem c01_park_inv_step : forall (st : rstate) (orc : list oracle) (o : rop) (st' : rstate) (out : rout),
+  CInv st -> Bounded st -> 1 <= cf_max_outgoing (r_cfg st) -> ParkInv st ->
+  step_with st orc o = Ok (st', out) -> ParkInv st'.
+Proof. exact step_with_park. Qed.
+
+Theorem c01_parked_at_end : forall (cfg : config) (st0 : rstate) (ops : list (list oracle * rop)) (st : rstate),
+  cfg_ok cfg -> 1 <= cf_max_outgoing cfg < B62 -> init cfg = Ok st0 -> ops_wf ops ->
+  run st0 ops = Ok st -> Bounded st ->
+  forall (i : N) (d : data) (id : N) (rq : drequest), nget (r_datalog st) i = Some d -> In (id, rq) (d_waiters d) ->
+    dr_idx rq = i /\ (dr_group rq = None -> snd (dr_cursor rq) = end_of (d_log d)).
+Proof. exact parked_at_end. Qed.
+
+(** completeness at quiescence: every live connection holds nothing in its tracker and has no
+    committed ack; each of its subscriptions has exactly one data request anywhere
+    ([c01_request_location]) and it is parked ([cnti] = its count over all waiter lists) on the
+    log it reads with its cursor at the end of that log: by [c01_sweep_exact] /
+    [c01_two_sweeps] everything appended before was forwarded (or evicted unforwarded beyond
+    retention), nothing accepted is still undelivered *)
+Theorem c01_complete_quiescent : forall (cfg : config) (st0 : rstate) (ops : list (list oracle * rop)) (st : rstate),
+  cfg_ok cfg -> 1 <= cf_max_outgoing cfg < B62 -> init cfg = Ok st0 -> ops_wf ops ->
+  run st0 ops = Ok st -> Bounded st ->
+  quiescent st (owed_run st0 [] ops) ->
+  forall (id : N) (c : connection), slab_get (r_conns st) id = Some c ->
+  exists (t : tracker) (a : acklog),
+    slab_get (r_trackers st) id = Some t /\ slab_get (r_acks st) id = Some a /\
+    tr_status t = Paused Caughtup /\ tr_reqs t = [] /\ a_committed a = [] /\
+    forall f : str, set_mem str_eqb f (c_subs c) = true ->
+      cnti f id (items_of st) = 1%nat /\
+      exists (i : N) (d : data) (rq : drequest),
+        nget (r_datalog st) i = Some d /\ In (id, rq) (d_waiters d) /\ dr_filter rq = f /\ dr_idx rq = i /\
+        (dr_group rq = None -> snd (dr_cursor rq) = end_of (d_log d)).
+Proof. exact complete_quiescent. Qed.
+
+(** non-trivial reachable witnesses: Paused Busy with a request pending and the Unschedule in the
+    link buffer; the same after the link drained it (nothing in the buffer: the ghost holds) and
+    after the owed Ready; Paused InflightFull with a full window; a quiescent state with the
+    request parked at offset 250 = the end of its log *)
+Theorem c01_wake_example_busy :
+  let st := wx_st wx_busy_ops in let owed := wx_owed wx_busy_ops in
+  wx_run wx_busy_ops = Ok (st, owed) /\ reachable wx_cfg st /\ WakeInv st owed /\
+  exists (t : tracker) (o : outgoing),
+    slab_get (r_trackers st) 0 = Some t /\ slab_get (r_obufs st) 0 = Some o /\
+    tr_status t = Paused Busy /\ lenN (tr_reqs t) = 1 /\ r_ready st = [] /\
+    In NUnschedule (out_of st (o_link o)) /\ lenN (out_of st (o_link o)) = 201 /\ owed = [].
+Proof. exact wake_busy_witness. Qed.
+
+Theorem c01_wake_example_owed :
+  let st := wx_st wx_owed_ops in let owed := wx_owed wx_owed_ops in
+  let st' := wx_st wx_ready_ops in let owed' := wx_owed wx_ready_ops in
+  wx_run wx_owed_ops = Ok (st, owed) /\ reachable wx_cfg st /\ WakeInv st owed /\
+  wx_run wx_ready_ops = Ok (st', owed') /\ WakeInv st' owed' /\
+  exists (t : tracker) (o : outgoing) (t' : tracker),
+    slab_get (r_trackers st) 0 = Some t /\ slab_get (r_obufs st) 0 = Some o /\
+    tr_status t = Paused Busy /\ lenN (tr_reqs t) = 1 /\ r_ready st = [] /\
+    out_of st (o_link o) = [] /\ owed = [o_link o] /\
+    slab_get (r_trackers st') 0 = Some t' /\ tr_status t' = Ready /\ lenN (tr_reqs t') = 1 /\
+    r_ready st' = [0] /\ owed' = [].
+Proof. exact wake_owed_witness. Qed.
+
+Theorem c01_wake_example_inflightfull :
+  let st := wx_st wx_full_ops in let owed := wx_owed wx_full_ops in
+  wx_run wx_full_ops = Ok (st, owed) /\ reachable wx_cfg st /\ WakeInv st owed /\
+  exists (t : tracker) (o : outgoing),
+    slab_get (r_trackers st) 0 = Some t /\ slab_get (r_obufs st) 0 = Some o /\
+    tr_status t = Paused InflightFull /\ lenN (tr_reqs t) = 1 /\ r_ready st = [] /\
+    lenN (o_inflight o) = 100 /\ has_unsched (out_of st (o_link o)) = false /\ owed = [].
+Proof. exact wake_inflightfull_witness. Qed.
+
+Theorem c01_wake_example_quiescent :
+  let st := wx_st wx_quiet_ops in let owed := wx_owed wx_quiet_ops in
+  wx_run wx_quiet_ops = Ok (st, owed) /\ reachable wx_cfg st /\ WakeInv st owed /\ quiescent st owed /\
+  exists (c : connection) (t : tracker) (a : acklog) (d : data) (rq : drequest),
+    slab_get (r_conns st) 0 = Some c /\ c_subs c = [[116]] /\
+    slab_get (r_trackers st) 0 = Some t /\ slab_get (r_acks st) 0 = Some a /\
+    tr_status t = Paused Caughtup /\ tr_reqs t = [] /\ a_committed a = [] /\
+    cnti [116] 0 (items_of st) = 1%nat /\
+    nget (r_datalog st) 0 = Some d /\ d_waiters d = [(0, rq)] /\ dr_filter rq = [116] /\
+    dr_cursor rq = (1, 250) /\ end_of (d_log d) = 250.
+Proof. exact wake_quiescent_witness. Qed.
